@@ -6,6 +6,7 @@ package main
 
 import (
 	"encoding/json"
+	"os"
 	"fmt"
 	"go/ast"
 	"go/parser"
@@ -31,6 +32,11 @@ type Facts struct {
 	StructValidateTestArg string
 	StructValidatePostArg string
 	StructProcessPostWrap string
+	DynKeyBufGuard        bool
+	DynNilProvGuard       bool
+	DynUnexportedGuard    bool
+	DynEmptySegGuard      bool
+	DynMapConvert         bool
 	CollectMapSkipsFirst  bool
 	HTTPMethods           [][2]string // method -> parser
 	HTTPTypes             [][2]string // media type -> parser
@@ -495,6 +501,75 @@ func extractFacts(repo string) (*Facts, error) {
 		sel, ok := call.Fun.(*ast.SelectorExpr)
 		return ok && sel.Sel.Name == "AddIssue"
 	}), ",")
+	// F-dyn: the guards that keep input data from panicking the glue code (C06)
+	srcOf := func(rel string) string {
+		b, err := os.ReadFile(filepath.Join(repo, rel))
+		if err != nil {
+			return ""
+		}
+		return string(b)
+	}
+	{
+		// struct.go: either no fixed-size key buffer at all, or every use of it is under a length guard
+		guarded := true
+		for _, fn := range []string{"process", "validate"} {
+			fd := findFunc(files["struct.go"], "StructSchema", fn)
+			if fd == nil {
+				guarded = false
+				continue
+			}
+			ast.Inspect(fd.Body, func(n ast.Node) bool {
+				// look for `var b [N]byte`
+				ds, ok := n.(*ast.DeclStmt)
+				if !ok {
+					return true
+				}
+				gd, ok := ds.Decl.(*ast.GenDecl)
+				if !ok {
+					return true
+				}
+				for _, sp := range gd.Specs {
+					vs, ok := sp.(*ast.ValueSpec)
+					if !ok {
+						continue
+					}
+					if _, isArr := vs.Type.(*ast.ArrayType); isArr {
+						// the declaration must sit inside an `if len(key) <= N` block
+						pos := fset.Position(ds.Pos()).Offset
+						inGuard := false
+						ast.Inspect(fd.Body, func(m ast.Node) bool {
+							is, ok := m.(*ast.IfStmt)
+							if !ok {
+								return true
+							}
+							c := ""
+							if be, ok := is.Cond.(*ast.BinaryExpr); ok {
+								c = exprString(be.X) + be.Op.String() + exprString(be.Y)
+							}
+							if strings.Contains(c, "len(...)") && (strings.Contains(c, "<=") || strings.Contains(c, "<")) &&
+								fset.Position(is.Body.Pos()).Offset <= pos && pos <= fset.Position(is.Body.End()).Offset {
+								inGuard = true
+							}
+							return true
+						})
+						if !inGuard {
+							guarded = false
+						}
+					}
+				}
+				return true
+			})
+		}
+		fc.DynKeyBufGuard = guarded
+		st := srcOf("struct.go")
+		fc.DynNilProvGuard = strings.Contains(st, "dataProv == nil")
+		dp := srcOf("internals/DataProviders.go")
+		fc.DynUnexportedGuard = strings.Contains(dp, "CanInterface()")
+		fc.DynMapConvert = strings.Contains(dp, "ConvertibleTo(") || !strings.Contains(dp, ".(map[string]")
+		pbs := srcOf("internals/PathBuilder.go")
+		fc.DynEmptySegGuard = !strings.Contains(pbs, "v[0]") || strings.Contains(pbs, `v == ""`) || strings.Contains(pbs, "len(v) > 0") || strings.Contains(pbs, `v != ""`)
+	}
+
 	// F-collect: CollectMap skips the $first entry (that issue is also filed under its own path)
 	uf, err := parseFile(fset, filepath.Join(repo, "utils.go"))
 	if err != nil {
@@ -635,7 +710,7 @@ func leanStrList(xs []string) string {
 
 func (f *Facts) lean() string {
 	var s strings.Builder
-	s.WriteString("-- GENERATED by harness/cmd/extract (go/ast) from /repo's working tree. Do not edit.\nimport Zog.Engine\nimport Zog.Http\nnamespace Zog.Gen\nopen Zog\n\n")
+	s.WriteString("-- GENERATED by harness/cmd/extract (go/ast) from /repo's working tree. Do not edit.\nimport Zog.Engine\nimport Zog.Http\nimport Zog.Dyn\nnamespace Zog.Gen\nopen Zog\n\n")
 	for _, l := range []string{"structParse", "structVal", "sliceParse", "sliceVal"} {
 		fmt.Fprintf(&s, "-- %s loop assigns before the child call: %s\n", l, strings.Join(f.LoopAssigns[l], ", "))
 	}
@@ -701,6 +776,8 @@ func (f *Facts) lean() string {
 		}
 		s.WriteString("]\n")
 	}
+	fmt.Fprintf(&s, "/-- guards that keep input data from panicking the glue code -/\ndef dynFacts : Dyn.Facts := { keyBufGuard := %s, nilProvGuard := %s, unexportedGuard := %s, emptySegGuard := %s, mapConvert := %s }\n\n",
+		b(f.DynKeyBufGuard), b(f.DynNilProvGuard), b(f.DynUnexportedGuard), b(f.DynEmptySegGuard), b(f.DynMapConvert))
 	fmt.Fprintf(&s, "/-- Issues.CollectMap skips the `$first` entry, so every issue object is returned to the pool once -/\ndef collectMapSkipsFirst : Bool := %s\n\n", b(f.CollectMapSkipsFirst))
 	s.WriteString("/-- zhttp.Request: `switch r.Method` and `switch typ` (typ = text of Content-Type before the separator) -/\n")
 	tbl("httpMethods", f.HTTPMethods)
